@@ -1453,6 +1453,8 @@ rrul_fill_dly(echs_instant_t *restrict tgt, size_t nti, rrulsp_t rr)
 	unsigned int m = proto.m;
 	unsigned int d = proto.d;
 	size_t res = 0UL;
+	/* candidates looked at since the last hit */
+	size_t tries = 0UL;
 	uint8_t wd_mask = 0U;
 	unsigned int m_mask = 0U;
 	uint_fast32_t posd_mask = 0U;
@@ -1533,7 +1535,7 @@ rrul_fill_dly(echs_instant_t *restrict tgt, size_t nti, rrulsp_t rr)
 	/* fill up the array the hard way */
 	for (res = 0UL, w = echs_scale_wday(srcsca, y, m, d),
 		     maxd = echs_scale_ndim(srcsca, y, m);
-	     res < nti;
+	     res < nti && tries++ < 64U * 366U;
 	     ({
 		     d += rr->inter;
 		     w += rr->inter;
@@ -1584,6 +1586,7 @@ rrul_fill_dly(echs_instant_t *restrict tgt, size_t nti, rrulsp_t rr)
 
 			tgt[res + GRP_CCH_OFF] = x;
 			tgt[res++] = x;
+			tries = 0UL;
 		}
 	}
 fin:
@@ -1599,6 +1602,8 @@ rrul_fill_Hly(echs_instant_t *restrict tgt, size_t nti, rrulsp_t rr)
 	unsigned int d = proto.d;
 	unsigned int H = proto.H;
 	size_t res = 0UL;
+	/* candidates looked at since the last hit */
+	size_t tries = 0UL;
 	uint8_t wd_mask = 0U;
 	unsigned int m_mask = 0U;
 	uint_fast32_t posd_mask = 0U;
@@ -1694,7 +1699,7 @@ rrul_fill_Hly(echs_instant_t *restrict tgt, size_t nti, rrulsp_t rr)
 	/* fill up the array the naive way */
 	for (unsigned int w = ymd_get_wday(y, m, d), yd = ymd_get_yd(y, m, d),
 		     maxd = __get_ndom(y, m), maxy = (y % 4U) ? 365 : 366;
-	     res < nti;
+	     res < nti && tries++ < 64U * 366U * 24U;
 	     ({
 		     if ((H += rr->inter) >= 24U) {
 			     d += H / 24U, w += H / 24U, yd += H / 24U;
@@ -1762,6 +1767,7 @@ rrul_fill_Hly(echs_instant_t *restrict tgt, size_t nti, rrulsp_t rr)
 				goto fin;
 			}
 			tgt[res++] = x;
+			tries = 0UL;
 		}
 	}
 fin:
@@ -1778,6 +1784,8 @@ rrul_fill_Mly(echs_instant_t *restrict tgt, size_t nti, rrulsp_t rr)
 	unsigned int H = proto.H;
 	unsigned int M = proto.M;
 	size_t res = 0UL;
+	/* candidates looked at since the last hit */
+	size_t tries = 0UL;
 	uint8_t wd_mask = 0U;
 	unsigned int m_mask = 0U;
 	uint_fast32_t posd_mask = 0U;
@@ -1887,7 +1895,7 @@ rrul_fill_Mly(echs_instant_t *restrict tgt, size_t nti, rrulsp_t rr)
 
 	/* fill up the array the naive way */
 	for (unsigned int w = ymd_get_wday(y, m, d), maxd = __get_ndom(y, m);
-	     res < nti;
+	     res < nti && tries++ < 28U * 366U * 24U * 60U;
 	     ({
 		     if ((M += rr->inter) >= 60U) {
 			     H += M / 60U, M %= 60U;
@@ -1944,6 +1952,7 @@ rrul_fill_Mly(echs_instant_t *restrict tgt, size_t nti, rrulsp_t rr)
 				goto fin;
 			}
 			tgt[res++] = x;
+			tries = 0UL;
 		}
 	}
 fin:
@@ -1961,6 +1970,8 @@ rrul_fill_Sly(echs_instant_t *restrict tgt, size_t nti, rrulsp_t rr)
 	unsigned int M = proto.M;
 	unsigned int S = proto.S;
 	size_t res = 0UL;
+	/* candidates looked at since the last hit */
+	size_t tries = 0UL;
 	uint8_t wd_mask = 0U;
 	unsigned int m_mask = 0U;
 	uint_fast32_t posd_mask = 0U;
@@ -2081,7 +2092,7 @@ rrul_fill_Sly(echs_instant_t *restrict tgt, size_t nti, rrulsp_t rr)
 
 	/* fill up the array the naive way */
 	for (unsigned int w = ymd_get_wday(y, m, d), maxd = __get_ndom(y, m);
-	     res < nti;
+	     res < nti && tries++ < 8U * 366U * 24U * 60U * 60U;
 	     ({
 		     if ((S += rr->inter) >= 60U) {
 			     M += S / 60U, S %= 60U;
@@ -2138,6 +2149,7 @@ rrul_fill_Sly(echs_instant_t *restrict tgt, size_t nti, rrulsp_t rr)
 			goto fin;
 		}
 		res++;
+		tries = 0UL;
 	}
 fin:
 	return res;
